@@ -160,6 +160,55 @@ func init() {
 				so.note("no-message", fmt.Sprintf("`%s%s%s` printed %q instead of an `invalid FEN` message", form, bad, suffix, text))
 			}
 		}
+		// loading is a function of the FEN text alone: the same FEN after other position commands (the same FEN with a move list,
+		// another FEN, startpos with moves) gives the snapshot of a fresh load
+		for i := 0; i < n/3+10; i++ {
+			x := valid[r.intn(len(valid))]
+			if i%5 == 0 {
+				x = "rnbqkbnr/pppppppp/8/8/8/8/PPPPPPPP/RNBQKBNR w KQkq - 0 1"
+			}
+			gx, err := engine.NewGeneratorFromFen(x)
+			if err != nil {
+				continue
+			}
+			fresh := engine.VerifSnapshot(gx.VerifTop())
+			ms := legalMoves(gx)
+			var hist []string
+			form := []string{"position fen ", "position "}[i%2]
+			switch i % 4 {
+			case 0, 1:
+				if len(ms) > 0 {
+					hist = append(hist, form+x+" moves "+ms[r.intn(len(ms))].text)
+				}
+			case 2:
+				hist = append(hist, "position startpos moves e2e4 e7e5 g1f3", "position fen "+valid[r.intn(len(valid))])
+			default:
+				hist = append(hist, "position startpos moves d2d4", form+x, "perft 1")
+			}
+			var got string
+			crashed := ""
+			captureStdout(func() {
+				defer func() {
+					if x := recover(); x != nil {
+						crashed = fmt.Sprint(x)
+					}
+				}()
+				engine.VerifResetSession()
+				for _, h := range hist {
+					engine.ParseInputLine(h)
+				}
+				engine.ParseInputLine(form + x)
+				if engine.VerifCurrent() != nil {
+					got = engine.VerifSnapshot(engine.VerifCurrent().VerifTop())
+				}
+			})
+			so.n++
+			if crashed != "" {
+				so.note("crash", fmt.Sprintf("`%s%s` after %q crashed: %s", form, x, hist, crashed))
+			} else if got != fresh {
+				so.note("changed", fmt.Sprintf("`%s%s` after the history %q sets up a position different from a fresh load: %s  -- fresh: %s", form, x, hist, got, fresh))
+			}
+		}
 		fmt.Fprintf(os.Stderr, "STATS fenkeep total=%d\n", so.n)
 	}
 	// C09's own quantifier: attacker kind x colour x from x to x (no blocker | one blocker anywhere else)
@@ -361,6 +410,16 @@ func init() {
 		for _, f := range corpusFens {
 			emit(f, "corpus")
 		}
+		// a pawn promotes by capturing a rook on its home corner while that castling right is alive (given as a move list): the
+		// right must be gone, a search from there must not castle with a rook that is not there
+		for _, c := range []struct{ fen, mv string }{
+			{"r3k2r/1P4P1/8/8/8/8/8/4K3 w kq - 0 1", "b7a8q"}, {"r3k2r/1P4P1/8/8/8/8/8/4K3 w kq - 0 1", "g7h8n"},
+			{"r3k2r/1P4P1/8/8/8/8/8/4K3 w kq - 0 1", "g7h8r"}, {"4k2r/6P1/8/8/8/8/8/4K3 w k - 0 1", "g7h8n"},
+			{"4k3/8/8/8/8/8/1p4p1/R3K2R b KQ - 0 1", "b2a1q"}, {"4k3/8/8/8/8/8/1p4p1/R3K2R b KQ - 0 1", "g2h1n"},
+			{"4k3/8/8/8/8/8/1p4p1/R3K2R b KQ - 0 1", "b2a1b"}, {"r3k3/1P6/8/8/8/8/8/4K3 w q - 0 1", "b7a8n"},
+		} {
+			emitFenList(c.fen, []string{c.mv}, "corner-promo")
+		}
 		// a piece that is NOT a pawn moves two ranks from its side's pawn rank, given as a move list, and an enemy pawn stands
 		// beside its destination: the move-list path must not leave an en-passant square behind
 		for i := 0; i < n/4+4; i++ {
@@ -383,6 +442,11 @@ func init() {
 			if i%5 == 0 {
 				if f := underpromoPlacement(r); f != "" {
 					emit(f, "underpromo")
+				}
+			}
+			if i%8 == 3 {
+				if f := stalemateTrick(r); f != "" {
+					emit(f, "stalemate-trick")
 				}
 			}
 			switch i % 4 {
@@ -945,6 +1009,93 @@ func underpromoPlacement(r *rng) string {
 			}
 			if canStep && alwaysPromotes {
 				return fen2
+			}
+		}
+	}
+	return ""
+}
+
+// Positions in which the side to move saves itself by a stalemate inside the search horizon: it has a checking sacrifice with
+// exactly one legal reply (taking the piece), after which it has no legal move and is not in check.  The principal variation of a
+// depth >= 3 search ends in that stalemate.
+func stalemateTrick(r *rng) string {
+	for tries := 0; tries < 300000; tries++ {
+		cells := map[int]byte{}
+		free := func() int {
+			for {
+				s := sq(r.intn(8), r.intn(8))
+				if _, used := cells[s]; !used {
+					return s
+				}
+			}
+		}
+		white := r.chance(1, 2)
+		K, k, own, enemy := byte('K'), byte('k'), "QRQ", "qrbnpp"
+		if !white {
+			K, k, own, enemy = 'k', 'K', "qrq", "QRBNPP"
+		}
+		corner := []int{sq(0, 0), sq(7, 0), sq(0, 7), sq(7, 7), sq(0, 3), sq(7, 4), sq(3, 0), sq(4, 7)}[r.intn(8)]
+		cells[corner] = K
+		near := func(d int) (int, bool) {
+			f, rk := corner&15+r.intn(2*d+1)-d, corner>>4+r.intn(2*d+1)-d
+			if f < 0 || f > 7 || rk < 0 || rk > 7 {
+				return 0, false
+			}
+			s := sq(f, rk)
+			if _, used := cells[s]; used {
+				return 0, false
+			}
+			return s, true
+		}
+		// enemy men near the cornered king take its squares away
+		for i := 0; i < 2+r.intn(3); i++ {
+			if s, ok := near(3); ok {
+				c := enemy[r.intn(len(enemy))]
+				if (c|32) == 'p' && (s>>4 == 0 || s>>4 == 7) {
+					continue
+				}
+				cells[s] = c
+			}
+		}
+		cells[free()] = k
+		cells[free()] = own[r.intn(len(own))]
+		if r.chance(1, 2) {
+			c := enemy[r.intn(len(enemy))]
+			s := free()
+			if !((c|32) == 'p' && (s>>4 == 0 || s>>4 == 7)) {
+				cells[s] = c
+			}
+		}
+		side := "w"
+		if !white {
+			side = "b"
+		}
+		fen := fenFromMap(cells, side, "-", "-", 1+r.intn(40))
+		gen, err := engine.NewGeneratorFromFen(fen)
+		if err != nil {
+			continue
+		}
+		ms := legalMoves(gen)
+		if len(ms) < 2 {
+			continue
+		}
+		for _, m := range ms {
+			if engine.VerifPush(gen, m.text) != nil {
+				continue
+			}
+			found := false
+			if engine.VerifInCheck(gen.VerifTop()) {
+				rs := legalMoves(gen)
+				if len(rs) == 1 && rs[0].text[2:4] == m.text[2:4] {
+					if engine.VerifPush(gen, rs[0].text) == nil {
+						found = len(legalMoves(gen)) == 0 && !engine.VerifInCheck(gen.VerifTop())
+						engine.VerifPop(gen)
+					}
+				}
+			}
+			engine.VerifPop(gen)
+			if found {
+				return fen
 			}
 		}
 	}
